@@ -169,7 +169,9 @@ func (c *Ctx) InstallAxioms() error {
 				err = fmt.Errorf("axiom %s depends on program state", ax.Name)
 				return
 			}
-			c.reg.axioms = append(c.reg.axioms, "(assert "+g+") ; axiom "+ax.Name)
+			text := "(assert " + g + ") ; axiom " + ax.Name
+			c.reg.axioms = append(c.reg.axioms, text)
+			c.reg.axiomPkg[text] = ax.Pkg
 		}()
 		if err != nil {
 			return err
